@@ -273,14 +273,14 @@ func specLkAfter(kind, lk int) int {
 //@   at call update#3: after ghost $lost = ite(result, $lost+wide(old(state).extra())+wide(n)-wide(state.extra()), $lost)
 //@   at call update#4: after ghost $lost = ite(result, $lost+wide(old(state).extra())+wide(n)-wide(state.extra()), $lost)
 //@   at call update#5: after ghost $lost = ite(result, $lost+wide(old(state).extra())+wide(n)-wide(state.extra()), $lost)
-//@   modifies c.ptr, $ledger, $lost, $rd, $lk, $refreshed, $touched
+//@   modifies c.ptr, $ledger, $lost, $rd, $lk, $refreshed, $touched, $sawClear, $didClear
 
 //@ contract (*Counter).Inc
 //@   requires c.file != nil
 //@   requires $rd == 0 && $lk == 0
 //@   ensures $ledger+$lost == old($ledger)+old($lost)+1
 //@   ensures $rd == 0 && $lk == 0
-//@   modifies c.ptr, $ledger, $lost, $rd, $lk, $refreshed, $touched
+//@   modifies c.ptr, $ledger, $lost, $rd, $lk, $refreshed, $touched, $sawClear, $didClear
 
 //@ contract (*Counter).releaseReader
 //@   at call releaseLock#1: ghost $touched = false
@@ -291,7 +291,7 @@ func specLkAfter(kind, lk int) int {
 //@   ensures $rd == 0 && $lk == 0
 //@   loop 1: invariant $ledger == old($ledger) && $lost == old($lost) && $rd == 1 && $lk == 0
 //@   loop 1: invariant !state.locked() && state.readers() >= 1
-//@   modifies c.ptr, $ledger, $lost, $rd, $lk, $refreshed, $touched
+//@   modifies c.ptr, $ledger, $lost, $rd, $lk, $refreshed, $touched, $sawClear, $didClear
 
 //@ contract (*Counter).releaseLock
 //@   requires c.file != nil
@@ -319,13 +319,23 @@ func specLkAfter(kind, lk int) int {
 //@   loop 1: invariant $touched && !$refreshed ==> c.ptr.count == nil
 //@   at call update#3: assert $touched ==> $refreshed || c.ptr.count == nil
 //@   at call update#3: assert $touched ==> $refreshed
-//@   modifies c.ptr, $ledger, $lost, $lk, $touched, $refreshed
+//@   modifies c.ptr, $ledger, $lost, $lk, $touched, $refreshed, $sawClear, $didClear
 
+// invalidate clears havePtr whatever else the state word says (readers, lock,
+// pending amount): it returns only after it has seen the flag clear or cleared it
+// itself. The readers and the lock holder re-check the flag when they leave; a
+// counter skipped here would keep its pointer into a mapping that is about to go.
+//@ ghost sawClear bool
+//@ ghost didClear bool
 //@ contract (*Counter).invalidate
 //@   requires $rd == 0 && $lk == 0
+//@   at call load#1: ghost $didClear = false
+//@   at call load#1: after ghost $sawClear = !result.havePtr()
+//@   at call update#1: after ghost $didClear = result
+//@   ensures $sawClear || $didClear
 //@   ensures $ledger == old($ledger) && $lost == old($lost) && $rd == 0 && $lk == 0
 //@   loop 1: invariant $ledger == old($ledger) && $lost == old($lost) && $rd == 0 && $lk == 0
-//@   modifies $ledger, $rd, $lk
+//@   modifies $ledger, $rd, $lk, $sawClear, $didClear
 
 //@ contract (*Counter).refresh
 //@   at call releaseLock#1: ghost $touched = false
@@ -334,7 +344,7 @@ func specLkAfter(kind, lk int) int {
 //@   ensures $ledger+$lost == old($ledger)+old($lost)
 //@   ensures $rd == 0 && $lk == 0
 //@   loop 1: invariant $ledger == old($ledger) && $lost == old($lost) && $rd == 0 && $lk == 0
-//@   modifies c.ptr, $ledger, $lost, $rd, $lk, $refreshed, $touched
+//@   modifies c.ptr, $ledger, $lost, $rd, $lk, $refreshed, $touched, $sawClear, $didClear
 
 // ---------------------------------------------------------------------------
 // C05 / C06 / C10: access to the mapped bytes.
@@ -547,7 +557,7 @@ func specMapped(m *mappedFile) bool {
 //@   at call Load#1: after assume result == nil || result.file != nil
 //@   at call Load#2: after assume result != nil && result.file != nil
 //@   at call Load#3: after assume result != nil && result.file != nil
-//@   modifies heap, $ledger, $lost, $refreshed, $touched
+//@   modifies heap, $ledger, $lost, $refreshed, $touched, $sawClear, $didClear
 
 // Replacing the current mapping (see the comment on file.current): a mapping taken
 // out of f.current may be closed only after the counters that point into it were
@@ -568,7 +578,7 @@ func specMapped(m *mappedFile) bool {
 //@   requires f != nil && current != nil && $rd == 0 && $lk == 0 && (current.mapping == nil || mmap.SpecValid(current.mapping))
 //@   at call invalidateCounters#1: after ghost $invalidated = true
 //@   at call close#1: assert $invalidated
-//@   modifies heap, $invalidated, $ledger, $lost, $refreshed, $touched, $fsops, $minsize, $tried
+//@   modifies heap, $invalidated, $ledger, $lost, $refreshed, $touched, $fsops, $minsize, $tried, $sawClear, $didClear
 
 // rotate1 follows the same protocol in its first deferred function (which runs
 // last, after the mutex was released): if the current mapping changed, the
@@ -591,16 +601,16 @@ func specMapped(m *mappedFile) bool {
 //@   at call Format#1: assert same(arg0, f.timeBegin) && same(arg0, begin) && arg1 == time.RFC3339
 //@   at call Format#2: assert same(arg0, f.timeEnd) && same(arg0, end) && arg1 == time.RFC3339
 //@   at call Format#3: assert same(arg0, f.timeBegin) && arg1 == "2006-01-02"
-//@   modifies heap, $fsops, $minsize, $now, $weekend, $ledger, $lost, $refreshed, $touched, $invalidated
+//@   modifies heap, $fsops, $minsize, $now, $weekend, $ledger, $lost, $refreshed, $touched, $invalidated, $sawClear, $didClear
 
 //@ contract (*file).rotate
 //@   requires $rd == 0 && $lk == 0
-//@   modifies heap, $fsops, $minsize, $now, $weekend, $ledger, $lost, $refreshed, $touched, $invalidated
+//@   modifies heap, $fsops, $minsize, $now, $weekend, $ledger, $lost, $refreshed, $touched, $invalidated, $sawClear, $didClear
 
 //@ contract Open
 //@   requires $rd == 0 && $lk == 0
 //@   allows panic#1: documented API misuse: Open and OpenAndRotate must not both be used in one process
-//@   modifies heap, rotating, defaultFile, $fsops, $minsize, $now, $weekend, $ledger, $lost, $refreshed, $touched, $invalidated
+//@   modifies heap, rotating, defaultFile, $fsops, $minsize, $now, $weekend, $ledger, $lost, $refreshed, $touched, $invalidated, $sawClear, $didClear
 
 // ---------------------------------------------------------------------------
 // C15 / C05: stack counters
@@ -665,7 +675,15 @@ func specMapped(m *mappedFile) bool {
 //@   requires forall i int :: 0 <= i && i < len(c.stacks) && c.stacks[i].counter != nil ==> c.stacks[i].counter.file != nil
 //@   loop 1: invariant -1 <= rangeindex && rangeindex < len(c.stacks)
 //@   loop 1: decreases len(c.stacks)-rangeindex
-//@   modifies heap, $ledger, $lost, $refreshed, $touched, $nopath, $fullname, $cutpath
+// The same stack hits one counter, different stacks different ones: a cached entry
+// is reused only if eq says its program counters are all of the captured ones (the
+// whole slice, whatever its length); a new entry remembers exactly the captured
+// slice together with the counter named by EncodeStack of that slice.
+//@   loop 1: invariant ctr == nil
+//@   at call eq#1: assert issub(arg1, pcs, 0, len(pcs)) && issub(arg0, s.pcs, 0, len(s.pcs))
+//@   at call EncodeStack#1: assert issub(arg0, pcs, 0, len(pcs)) && arg1 == c.name
+//@   at call append#1: assert issub(arg1[0].pcs, pcs, 0, len(pcs)) && arg1[0].counter == ctr && ctr != nil
+//@   modifies heap, $ledger, $lost, $refreshed, $touched, $nopath, $fullname, $cutpath, $sawClear, $didClear
 
 // ---------------------------------------------------------------------------
 // C09: the week a counter file covers.
